@@ -12,8 +12,11 @@ skeleton regenerated from the source (`Viv.Gen.skeleton`).
 list of `(layer, path, value)` entries; `ConfigNode.update` refuses a second value for the same
 path at the same layer (`DuplicatedConfigurationError`) and any value once frozen
 (`ConfigurationError`); `ConfigNode._get_value_with_source` walks `reversed(self._layers)` and
-returns the first layer that has a value. Key paths are leaf paths (`"section.key"`); the harness
-keeps the generated paths prefix-free, so "value at an interior key" never arises.
+returns the first layer that has a value. Key paths are leaf paths (`"section.key"`); a path strictly
+below / above an existing leaf is refused (`conflicts`, one tree shape for all layers).
+
+A refused operation is not undone: the second half of this file (`…K` functions) returns, together with the
+verdict, the state a refused `add_components` / a `setup()` that raises leaves behind (lesson 16).
 
 The layer order, the layer each `update` of `configuration.py` writes to, the layer
 `apply_configuration_defaults` writes to and the action order of `SimulationContext.setup` are NOT
@@ -82,6 +85,7 @@ inductive Err
   | noLayer      -- ConfigurationKeyError: no such layer / an update the generated table does not list
   | constraint   -- ConstraintError: add_components outside `initialization`
   | transition   -- InvalidTransitionError: `setup()` when the lifecycle already left `initialization`
+  | userError    -- an exception raised by the user's own code (a `sub_components` / `configuration_defaults` property or a `setup` that raises); it propagates unchanged
   deriving Repr, DecidableEq
 
 /-- `OrderedComponentSet.add` -/
@@ -261,5 +265,103 @@ def simulate (sc : Script) (user : List (String × Path × Val)) (mgrs : List (S
   let s ← mgrs.foldlM (fun s m => addManager s m.1 m.2) s
   let s ← addComponents s ts
   setup sc s
+
+/-! ### Refused operations: what they leave behind (lesson 16)
+
+`add_components` is not transactional. `_flatten` runs first (every `sub_components` is read before anything is
+registered); then, component after component, `apply_configuration_defaults` and `self._components.add`. Whatever
+raises – a clashing default (`DuplicatedConfigurationError`, re-raised as `ComponentConfigError`, or as a bare
+`ValueError` when the earlier source is not a registered component), a default that changes the structure of the
+configuration, a duplicate name, an exception of the user's `configuration_defaults` property – ends the call THERE:
+the components before the offending one stay registered, and of the offending component the defaults that were
+written before the refusal stay in the configuration (`LayeredConfigTree.update` applies a nested dictionary key by
+key), attributed to a component the manager does not hold; a component refused for its NAME has had all its defaults
+applied. Nothing is ever taken back, and nothing but the defaults layer is ever written. The functions below return
+the state that is left behind together with the verdict (`none` = accepted). -/
+
+/-- `LayeredConfigTree.update(dict, layer=…)`, keeping what was written before a refusal -/
+def Config.updateAllK (c : Config) (layer : String) : Defaults → Config × Option Err
+  | [] => (c, none)
+  | kv :: kvs =>
+    match c.update layer kv.1 kv.2 with
+    | .ok c' => updateAllK c' layer kvs
+    | .error e => (c, some e)
+
+/-- `apply_configuration_defaults`, keeping what was written before a refusal -/
+def applyDefaultsK (c : Config) (d : Defaults) : Config × Option Err := c.updateAllK defaultsLayer d
+
+/-- one iteration of `add_components`, keeping what was done when it raises -/
+def registerOneK (s : Sim) (t : Tree) : Sim × Option Err :=
+  match applyDefaultsK s.cfg t.defaults with
+  | (cfg, some e) => ({ s with cfg := cfg }, some e)
+  | (cfg, none) =>
+    match OrderedSet.add s.components t.name with
+    | .ok cs => ({ s with cfg := cfg, components := cs }, none)
+    | .error e => ({ s with cfg := cfg }, some e)
+
+/-- the loop of `add_components` over the flattened list; `boom = some i`: the `configuration_defaults` property of
+the `i`-th component of the list raises (nothing of that component is applied, the loop ends there) -/
+def registerListK : Sim → List Tree → Option Nat → Sim × Option Err
+  | s, [], _ => (s, none)
+  | s, t :: l, boom =>
+    if boom = some 0 then (s, some .userError) else
+    match registerOneK s t with
+    | (s', some e) => (s', some e)
+    | (s', none) => registerListK s' l (boom.map (· - 1))
+
+/-- code of the user's that raises while a batch is registered -/
+inductive Fault
+  | none
+  | sub             -- a `sub_components` property raises: `_flatten` fails before anything is registered
+  | defs (i : Nat)  -- the `configuration_defaults` property of the `i`-th component (flattening order) raises
+  deriving Repr, DecidableEq
+
+/-- `ComponentManager.add_components` with the state it leaves behind -/
+def registerK (s : Sim) (ts : List Tree) : Fault → Sim × Option Err
+  | .sub => (s, some .userError)
+  | .none => registerListK s (flatten ts) none
+  | .defs i => registerListK s (flatten ts) (some i)
+
+/-- `SimulationContext.add_components` with the state it leaves behind -/
+def addComponentsK (s : Sim) (ts : List Tree) (f : Fault) : Sim × Option Err :=
+  if s.started then (s, some .constraint) else registerK s ts f
+
+/-- a history of `add_components` calls on one context, the caller catching every refusal and carrying on -/
+def addManyK (s : Sim) (bs : List (List Tree × Fault)) : Sim := bs.foldl (fun s b => (addComponentsK s b.1 b.2).1) s
+
+/-- `_setup_components` when the `setup` of the object called `boom` raises: the objects before it have been set up,
+it has been entered (it logged, read, tried its writes), the ones after it are never reached -/
+def setupComponentsK (sc : Script) (boom : String) (s : Sim) : Sim × Option Err :=
+  match OrderedSet.addAll [] (s.managers ++ s.components) with
+  | .error e => (s, some e)
+  | .ok all =>
+    if all.contains boom then
+      ((all.takeWhile (· != boom) ++ [boom]).foldl (setupOne sc) s, some .userError)
+    else (all.foldl (setupOne sc) s, none)
+
+def actK (sc : Script) (boom : String) (s : Sim) : Viv.Gen.Act → Sim × Option Err
+  | .set _ => ({ s with started := true }, none)
+  | .freeze => ({ s with cfg := s.cfg.freeze }, none)
+  | .setupComponents => setupComponentsK sc boom s
+  | _ => (s, none)
+
+/-- the body of a context method is left at the first statement that raises -/
+def runActsK (sc : Script) (boom : String) : List Viv.Gen.Act → Sim → Sim × Option Err
+  | [], s => (s, none)
+  | a :: r, s =>
+    match actK sc boom s a with
+    | (s', none) => runActsK sc boom r s'
+    | (s', some e) => (s', some e)
+
+/-- `SimulationContext.setup()` with the state it leaves behind when the `setup` of `boom` raises -/
+def setupK (sc : Script) (boom : String) (s : Sim) : Sim × Option Err :=
+  if s.started then (s, some .transition) else runActsK sc boom setupActs s
+
+/-- the bootstrap with a history of accepted and refused `add_components` calls before `setup()` -/
+def simulateK (sc : Script) (user : List (String × Path × Val)) (mgrs : List (String × Defaults))
+    (bs : List (List Tree × Fault)) : Except Err Sim := do
+  let s ← user.foldlM (fun s u => userSet s u.1 u.2.1 u.2.2) ({} : Sim)
+  let s ← mgrs.foldlM (fun s m => addManager s m.1 m.2) s
+  setup sc (addManyK s bs)
 
 end Viv.Components
